@@ -5,7 +5,9 @@
        entry = hl:<strhex>:<none|=|hex,hex,...>  re:<0|1>:<strhex>:<0|1>  gai:<hosthex>:<porthex>:<0|1>  chr:<strhex>:<0|1>
 
    mode lex  -> R <id> end=<eof|exit:S|mem:S|hang:S> maxidx=<n> toks=<name[:hex],...|->
-   mode conf -> R <id> class=<ok|exit|abort|mem|hang> site=<S> line=<0|1> mand=<0|1|-> devs=<n> nodes=<n> *)
+   mode conf -> R <id> class=<ok|exit|abort|mem|hang> site=<S> line=<0|1> mand=<0|1|-> devs=<n> nodes=<n>
+                      eclass=.. esite=.. eline=.. emand=..     (the same run with errno stale at every strtol)
+   mode dump -> R <id> class=.. site=.. line=.. dump=<hex of DEV/NODES/ALIAS lines as lex_h.c's dump mode + MAPOK b> *)
 
 exception Missing of string
 
@@ -74,15 +76,41 @@ let () =
               let toks = List.rev st.l_out in
               Printf.printf "R %s end=%s maxidx=%d toks=%s\n" id (end_name e) (int_of_n st.l_maxidx)
                 (if toks = [] then "-" else String.concat "," (List.map tok_name toks))
-            end else begin
-              let r = conf_init o_hl o_re o_gai o_chr fmap maintext in
+            end else if mode = "dump" then begin
+              (* R-CONF (C13): the configuration record in the format of harness/lex_h.c's dump mode *)
+              let r = conf_init o_hl o_re o_gai o_chr (fun _ -> false) fmap maintext in
               let (cls, site) = outcome_class r in
               let cname = match int_of_n cls with 0 -> "ok" | 1 -> "exit" | 2 -> "abort" | 3 -> "mem" | _ -> "hang" in
-              let (mand, nd, nn) = match r with
-                | Ok c -> ((if mandatory_ok c then "1" else "0"), List.length c.c_devs, List.length c.c_nodes)
-                | _ -> ("-", 0, 0) in
-              Printf.printf "R %s class=%s site=%d line=%d mand=%s devs=%d nodes=%d\n" id cname (int_of_nat site)
-                (if site_hasline site then 1 else 0) mand nd nn
+              let b = Buffer.create 256 in
+              (match r with
+               | Ok c ->
+                 List.iter (fun d ->
+                     Buffer.add_string b (Printf.sprintf "DEV %s %s %d %d" (hex_of_text d.d_name) (hex_of_text d.d_spec)
+                                            (if d.d_hardwired then 1 else 0) (List.length d.d_plugs));
+                     List.iter (fun (p, n) ->
+                         Buffer.add_string b (" " ^ hex_of_text p ^ " " ^ (match n with Some x -> hex_of_text x | None -> "."))) d.d_plugs;
+                     Buffer.add_char b '\n') c.c_devs;
+                 let hl l = if l = [] then "=" else String.concat "," (List.map hex_of_text l) in
+                 Buffer.add_string b ("NODES " ^ hl c.c_nodes ^ "\n");
+                 List.iter (fun (n, l) -> Buffer.add_string b ("ALIAS " ^ hex_of_text n ^ " " ^ hl l ^ "\n")) c.c_aliases;
+                 Buffer.add_string b (Printf.sprintf "MAPOK %d\n" (if map_ok c then 1 else 0))
+               | _ -> ());
+              Printf.printf "R %s class=%s site=%d line=%d dump=%s\n" id cname (int_of_nat site)
+                (if site_hasline site then 1 else 0) (hex_of_text (text_of_string (Buffer.contents b)))
+            end else begin
+              (* the stale-errno oracle (F30 not applied) is environment non-determinism: the model is evaluated under
+                 both constant answers; `class/site/...` = errno never stale, `eclass/esite/eline` = always stale *)
+              let show r =
+                let (cls, site) = outcome_class r in
+                let cname = match int_of_n cls with 0 -> "ok" | 1 -> "exit" | 2 -> "abort" | 3 -> "mem" | _ -> "hang" in
+                let (mand, nd, nn) = match r with
+                  | Ok c -> ((if mandatory_ok c then "1" else "0"), List.length c.c_devs, List.length c.c_nodes)
+                  | _ -> ("-", 0, 0) in
+                (cname, int_of_nat site, (if site_hasline site then 1 else 0), mand, nd, nn) in
+              let (c0, s0, l0, m0, nd, nn) = show (conf_init o_hl o_re o_gai o_chr (fun _ -> false) fmap maintext) in
+              let (c1, s1, l1, m1, _, _) = show (conf_init o_hl o_re o_gai o_chr (fun _ -> true) fmap maintext) in
+              Printf.printf "R %s class=%s site=%d line=%d mand=%s devs=%d nodes=%d eclass=%s esite=%d eline=%d emand=%s\n" id c0 s0 l0 m0 nd nn
+                c1 s1 l1 m1
             end
           with Missing k -> Printf.printf "R %s error=missing-oracle:%s\n" id k);
          flush stdout
